@@ -282,6 +282,64 @@ def _read_vals(built, lay):
     return vals
 
 
+def unrestricted_ramps(M, rec, rng, g, reps):
+    """On-ramps whose capacity is infinite ("the ramp itself never limits the flow" - `MeteredOnRamp(float("inf"))`), stepped
+    from finite states below the maximum density with the ramp open: every output is finite, on both engines."""
+    import copy
+
+    NE, CE = drive.engines(M)
+    for it in range(reps):
+        desc = copy.deepcopy(g.network(("ramp", "merge", "ramp", "random")[it % 4])[1])
+        ramps = [o for o in desc["origins"] if o["kind"] in ("ramp", "simple") and not (o["kind"] == "simple" and o["eq"] == "unlimited")]
+        if not ramps:
+            continue
+        for o in ramps:
+            o["C"] = math.inf
+        ins, outs, org, dst = R.topology(desc)
+        pars = g.pars()
+        kw = drive.step_pars(pars)
+        _, vals = g.values(desc, "interior", allow_inf=False)
+        for o in ramps:
+            lk = outs[o["node"]][0]
+            vals[lk["id"]]["rho"][0] = min(vals[lk["id"]]["rho"][0], 0.9 * lk["rho_max"])
+            if "r" in vals[o["id"]]:
+                vals[o["id"]]["r"] = rng.uniform(0.2, 1.0)
+            if "q" in vals[o["id"]]:
+                vals[o["id"]]["q"] = rng.uniform(200.0, 3000.0)
+            vals[o["id"]]["d"] = rng.uniform(300.0, 4000.0)  # (a finite demand: with nothing limiting the ramp, what it admits is demand + queue / T)
+            vals[o["id"]]["w"] = rng.uniform(0.0, 40.0)
+        if R.is_singular(desc, vals):
+            continue
+        case = {"desc": desc, "pars": pars, "vals": vals}
+        built = D.build(M, desc)
+        rec.count("networks_with_ramps_of_infinite_capacity")
+        try:
+            built.net.step(init_conditions=drive.np_init(built, vals, "vec1"), engine=NE(), **kw)
+            bad = _nonfinite(drive.read_next(built))
+        except Exception as e:
+            _exc(rec, "step", "numpy-user [infinite ramp capacity]", e, case)
+            continue
+        rec.count("finite_checks")
+        if bad:
+            rec.violation(f"{PROP}:non-finite output for finite admissible inputs (numpy-user, a ramp of infinite capacity) at {_where(desc, bad[0])}",
+                          dict(case, nonfinite=bad[:5]))
+        st = ("SX", "MX")[it % 2]
+        try:
+            eng = CE(st)
+            built.net.step(engine=eng, **kw)
+            compact = rng.choice((0, 1, 2))
+            F = eng.to_function(built.net, compact=compact, more_out=True, **kw)
+            xn, q, qo = C.call_positional(F, desc, C.live_order(built), vals, compact, True)
+        except Exception as e:
+            _exc(rec, "step / to_function", st + " [infinite ramp capacity]", e, case)
+            continue
+        rec.count("finite_checks")
+        bad = _nonfinite(xn) + [(oid, "q_o", 0, x) for oid, x in (qo or {}).items() if not math.isfinite(x)]
+        if bad:
+            rec.violation(f"{PROP}:non-finite output of compiled function for finite admissible inputs ({st}, a ramp of infinite capacity) at {_where(desc, bad[0])}",
+                          dict(case, nonfinite=bad[:5]))
+
+
 def run(M, rec, tier, seed, k, n):
     W.USER_KINDS["prob"] = 0.12  # user-defined origin / link kinds (README "Extensions")
     np.seterr(all="ignore")
@@ -326,6 +384,8 @@ def run(M, rec, tier, seed, k, n):
     if rec.counters.get("valid_networks", 0) <= 3:
         pass
     rec.sample({"example_network": desc})
+    if not child:
+        unrestricted_ramps(M, rec, rng, g, 24 if tier == "quick" else 200)
 
 
     if k == 0 and not child:
